@@ -157,7 +157,7 @@ func decoration(r *vlib.Rng, tags map[string]bool) string {
 			vlib.Pick(r, []string{"disc", "circle", "square", "decimal", "none", "lower-roman"}), vlib.Pick(r, []string{"inside", "outside"}), pngURI)
 	case 4:
 		tags["textdeco"] = true
-		return fmt.Sprintf(`<p style="text-decoration:%s %s %s;letter-spacing:%s;word-spacing:%s;font-size:%s">de co <span style="vertical-align:super;color:%s">ra</span> tion</p>`,
+		return fmt.Sprintf(`<p style="text-decoration:%s %s %s;letter-spacing:%s;word-spacing:%s;font-size:%s">de co <span style="vertical-align:super;color:%s;font-family:weasyprint">ra</span> tion</p>`,
 			vlib.Pick(r, []string{"underline", "overline", "line-through", "underline overline line-through", "none"}),
 			vlib.Pick(r, []string{"solid", "double", "dotted", "dashed", "wavy"}), vlib.Pick(r, colors), pickLen(r), pickLen(r),
 			vlib.Pick(r, []string{"10px", "0", "1px", "20px", "0.5px"}), vlib.Pick(r, colors))
